@@ -367,12 +367,6 @@ fragment: the chunk is shorter than 64 KiB (`Seq.step` computes the loop-back ta
 at most one loop point per channel track (`SongSplit.segCount`), `PlatformClean` (no platform `cmd`
 injects an index-bearing opcode; vacuous without platform commands). -/
 
-theorem inDomain_segno {song : Song} {root : List Event} (h : Timeline.inDomain song root = true) :
-    Timeline.segnoAtDepth0 0 root = true := by
-  unfold Timeline.inDomain at h
-  simp only [Bool.and_eq_true] at h
-  exact h.1.1
-
 /-- **C02 for whole songs of the plain fragment.**  For every channel track in `Timeline.inDomain`
 whose expected tick string is defined: the track table of the assembled chunk lists the channel,
 and the sequence interpreter, started on the listed position with the loop-back followed once,
@@ -391,7 +385,7 @@ theorem C02_song_roundtrip_partial (song : Song) (d : DataInfo) (vol : Option St
             run b.seq base 1 maxTicks fuel { pc := start } = (T, .finished) := by
   intro id root t hmem hid hdom hcnt hexp
   obtain ⟨ts, stream, pre, htr, hlk, _, hres⟩ :=
-    SongTop.song_plays hpc hp hb hlen pf hmem hid (inDomain_segno hdom) hcnt hexp 1
+    SongTop.song_plays hpc hp hb hlen pf hmem hid (SongTop.inDomain_segno hdom) hcnt hexp 1
   obtain ⟨X, Y, TA, TB, loops, s', hreach, hfin, hout, hX, hY, ht, _, _, _⟩ := hres.plays
   refine ⟨_, ts, pre.length, htr, hlk,
     (if loops then TA ++ repeatL 1 (TB ++ [Tk.loopMark]) ++ TB else TA ++ TB), ?_, ?_⟩
